@@ -141,6 +141,26 @@ def multi_graph(rnd, inst_prop=M.RDF_TYPE):
     return T
 
 
+def incoming_graph(rnd):
+    """instances (IRIs and blank nodes) of a class that receive links from subjects of every sort: instances of another class,
+    untyped IRIs, untyped blank nodes, other instances of their own class - several per instance, so that losing any one of them
+    changes a cardinality"""
+    na = rnd.randint(3, 5)
+    A = [M.iri(EX + "a%d" % i) if rnd.random() < .55 else M.bnode("a%d" % i) for i in range(na)]
+    B = [M.iri(EX + "b%d" % i) for i in range(rnd.randint(1, 2))]
+    U = [M.iri(EX + "u%d" % i) for i in range(2)] + [M.bnode("u%d" % i) for i in range(2)]
+    T = [(x, M.RDF_TYPE, M.iri(EX + "A")) for x in A] + [(x, M.RDF_TYPE, M.iri(EX + "B")) for x in B]
+    for x in A:
+        for p in (EX + "p", EX + "q"):
+            for s_ in rnd.sample(B + U + A, rnd.randint(0, 3)):
+                T.append((s_, p, x))
+        if rnd.random() < .5:
+            T.append((x, EX + "name", M.lit("n")))
+    T = sorted(set(T), key=str)
+    rnd.shuffle(T)
+    return T
+
+
 def sources_graph(rnd):
     """incoming links of one property from subjects of several classes: a target class T whose instances are linked by subjects of
     classes S0..Sk (IRI nodes, one class each) with very different frequencies; the rare source is often the first in the document"""
